@@ -181,7 +181,8 @@ def check_mutant(src, mutated, kind, ctx, mode, res, cross, flags="default"):
         if skipped and not failed:
             res.fail("silent-skip:" + kind, "run succeeded although the lexer skipped source characters: " + r.stderr.strip()[:160])
         return False
-    if cross and kind not in ("bad-escape", "backslash-eof"):
+    if cross and kind.split("+")[-1] not in ("bad-escape", "backslash-eof") and \
+            lx.error.kind not in ("invalid-escape", "backslash-at-eof"):
         if not cmake_parse_error(mutated):
             res.labels.append("disputed:" + kind)
             res.fail("HARNESS:disputed-mutant:" + kind, f"reference lexer: {lx.error}; cmake -P reports no parse error")
